@@ -91,6 +91,7 @@ fn hstep(h: u128, x: u64) -> u128 {
     (h * 1000003 + x as u128 + 1) % HMOD
 }
 const LONG: usize = 12;
+const SEG: usize = 120;
 /// a sorted id list: in full when short, as (length, hash) when long
 fn zs(v: &[u64]) -> String {
     if v.len() <= LONG {
@@ -1304,8 +1305,10 @@ fn run_trace_p(out: &mut Out, r: &mut Rng, mode: Mode, ops: &[Op], obs_every: us
     for (_, f) in &fails {
         tags.push(format!("oracle-fail:{}", if f.class.is_empty() { "unlisted" } else { f.class }));
     }
-    let term = format!("(chk_trace {} [{}])%Z", bw, items.join(";"));
-    let show = format!("(diag_trace {} [{}])%Z", bw, items.join(";"));
+    // segments of SEG items: Coq's parser is quadratic in the length of one bracketed list
+    let segs = items.chunks(SEG).map(|c| format!("[{}]", c.join(";"))).collect::<Vec<_>>().join(";");
+    let term = format!("(chk_segs {} [{}])%Z", bw, segs);
+    let show = format!("(diag_segs {} [{}])%Z", bw, segs);
     out.emit(&Case {
         kind: format!("trace:{:?}", mode),
         input: input.clone(),
@@ -1402,7 +1405,7 @@ fn corpus(out: &mut Out, r: &mut Rng) {
     let i = |x: i64| Value::Int64(x);
     let f = |x: f64| Value::Float64(x);
     let all = [Mode::StoreBackward, Mode::StoreForwardOnly, Mode::Db];
-    // C14-K1 (fixed by 115f14a): delete_node left the node in the property index
+    // C14-K1 (fixed by ebcbf15): delete_node left the node in the property index
     for m in all {
         run_trace_p(out, r, m, &[CreateNode(vec![0]), SetNodeProp(0, 1, i(5)), CreateIndex(1), DeleteNode(0)], 1, "corpus:K1", false, &[(1, i(5))]);
         run_trace_p(
@@ -1527,12 +1530,13 @@ fn main() {
             _ => Mode::Db,
         };
         let w = r.below(100);
-        if w < 6 {
+        // one trace in 16 is a hub trace (deterministically, so that every run has them)
+        if c % 16 == 3 {
             // hub trace
             let len = 330 + r.below(271) as usize;
             let ops = gen_hub_ops(&mut r, len);
-            let every = if thorough { 1 + 3 * (c % 2) } else { 8 };
-            run_trace(&mut out, &mut r, mode, &ops, every, "hub", true);
+            let every = if thorough { 4 + 4 * (c % 2) } else { 24 };
+            run_trace(&mut out, &mut r, mode, &ops, every as usize, "hub", true);
         } else {
             let len = if w < 40 {
                 1 + r.below(12) as usize
@@ -1542,7 +1546,13 @@ fn main() {
                 50 + r.below(150) as usize
             };
             let ops = gen_ops(&mut r, len);
-            let every = if thorough || len <= 12 { 1 } else { 8 };
+            let every = if len <= 12 {
+                1
+            } else if thorough {
+                if len <= 30 { 1 } else { 3 }
+            } else {
+                8
+            };
             run_trace(&mut out, &mut r, mode, &ops, every, "mixed", len > 60);
         }
     }
